@@ -21,6 +21,9 @@ Case families (all enumerated completely, see enumerate_cases):
   ycfg   application container given as its own YAML configuration (the segment builds it itself)
   nohdr  application container absent (boot header only)                       -> layout clauses only
   cli    `nxpimage bootable-image merge / parse` (with and without -m) through click's CliRunner per representative
+  hist   histories of initial-offset requests on ONE live object (from the configuration at every recognisable start
+         offset, and from parse): down through every prescribed offset to 0 and up again, by value / by segment name /
+         one byte below an offset, with refused requests (behind the last segment, negative) in between
   content  content variants the segment types accept besides the canonical one, one segment at a time with everything
          else present, at initial offset 0 and at a later start offset: FCB in swapped byte order (tag CFBF, every byte
          pair swapped), FCB / key blob / key store / BEE header ending in runs of 0x00 and 0xFF, every XMCD variant
@@ -53,7 +56,8 @@ CLAUSES = {
     "C14.fill-pattern": "a byte outside every supplied segment differs from the device's fill pattern",
     "C14.image-length": "the image ends before the end of its last segment",
     "C14.init-offset-beyond-last": "an initial offset behind the last prescribed offset is accepted",
-    "C14.init-offset-state": "image exported after init_offset was changed on a loaded object differs from the image of a fresh object",
+    "C14.init-offset-state": "after a history of init_offset requests a live object is not what a fresh object with that initial offset is "
+                             "(model image, init_offset, segment offsets, len, fresh export), or a refused request changed it",
     "C14.parse-raises": "BootableImage.parse(export, family, mem_type) raises on an image merged from valid segments",
     "C14.parse-missing-segment": "a supplied segment is not returned by parse",
     "C14.parse-segment-bytes": "parse returns other bytes for a segment than were supplied",
@@ -578,6 +582,8 @@ def run_case(case: dict, seed: int) -> dict:
         try:
             if api == "cli":
                 return _run_cli(case, cfg, lay, supplied, placed, overlaps, legal, io, td, viol, count)
+            if api == "hist":
+                return _run_history(case, cfg, lay, supplied, legal, td, viol, count)
             if api in ("set", "setn"):
                 bimg = BootableImage.load_from_config(dict(cfg, init_offset=0), search_paths=[td])
                 image_full = bimg.export()
@@ -638,6 +644,132 @@ def run_case(case: dict, seed: int) -> dict:
         return {"viol": core.dedupe(viol), "count": count, "distinct": [tok] if placed else []}
     finally:
         shutil.rmtree(td, ignore_errors=True)
+
+
+def _run_history(case: dict, cfg: dict, lay: BL.Layout, supplied: dict, legal: bool, td: str, viol: list, count: dict) -> dict:
+    """A history of initial-offset requests on ONE live object (obtained from the configuration or from parse).
+
+    After an accepted request the object has to be what a fresh object loaded with that initial offset is (model image,
+    init_offset value, segment offsets, length, and byte-identical to the export of the fresh object); after a refused
+    request (negative / behind the last prescribed offset) it has to be exactly what it was before the request."""
+    from spsdk.exceptions import SPSDKError
+    from spsdk.image.bootable_image.bimg import BootableImage
+    from spsdk.image.bootable_image.segments import BootableImageSegment
+    from spsdk.image.mem_type import MemoryType
+
+    fam, rev, mem = case["f"], case["r"], case["m"]
+    start = int(case.get("io", 0))
+    C = "C14.init-offset-state"
+
+    def snapshot(b) -> dict:
+        snap: dict = {}
+        for key, fn in (("init_offset", lambda: b.init_offset), ("len", lambda: len(b)),
+                        ("segment-offsets", lambda: [(x.NAME.label, b.get_segment_offset(x)) for x in b.segments]),
+                        ("image_info", lambda: [(x.name, x.offset, len(x)) for x in b.image_info().sub_images]),
+                        ("export", lambda: bytes(b.export()))):
+            try:
+                snap[key] = fn()
+            except (core.Watchdog, core.HarnessError):
+                raise
+            except Exception as e:  # noqa
+                snap[key] = f"raises {type(e).__name__}"
+        return snap
+
+    fresh_cache: dict = {}
+
+    def fresh_export(off: int) -> bytes:
+        if off not in fresh_cache:
+            fresh_cache[off] = bytes(BootableImage.load_from_config(dict(cfg, init_offset=off), search_paths=[td]).export())
+        return fresh_cache[off]
+
+    bimg = BootableImage.load_from_config(dict(cfg, init_offset=start), search_paths=[td])
+    if case.get("src") == "parse":
+        if any(n in BL.APP_SEGMENTS and not roundtrips_alone(d) for n, d in supplied.items()):
+            # export() of a parsed object re-serialises the container; one that its own parser + exporter do not
+            # reproduce on their own (C01/C06/C07 matter) cannot be judged here
+            count["history-parse-container-does-not-round-trip-on-its-own"] = 1
+            return {"viol": [], "count": count, "distinct": []}
+        bimg = BootableImage.parse(bytes(bimg.export()), family=fam, mem_type=MemoryType.from_label(mem), revision=rev)
+        if bimg.init_offset != start:
+            count["history-parse-other-init-offset"] = 1
+            return {"viol": [], "count": count, "distinct": []}
+        # a parsed object knows only what the image holds
+        supplied = {n: d for n, d in supplied.items() if not lay.excluded(n, start)}
+    count["accepted"] = 1
+    cur = start
+    state = snapshot(bimg)
+    for step, op in enumerate(case["ops"]):
+        kind, val = op
+        req = lay.offsets[val] if kind == "setn" else int(val)
+        eff = None if req < 0 else lay.round_init_offset(req)
+        if eff is not None and case.get("src") == "parse" and eff < start:
+            continue  # nothing in front of the parsed image's start is known to the object
+        try:
+            if kind == "setn":
+                bimg.set_init_offset(BootableImageSegment.from_label(val))
+            else:
+                bimg.init_offset = req
+            refused = None
+        except SPSDKError as e:
+            refused = e
+        except (core.Watchdog, core.HarnessError):
+            raise
+        except Exception as e:  # noqa
+            viol.append((C, f"request-raises:{type(e).__name__}@{_site(e)}", f"step {step} {op}: {type(e).__name__}: {e}"[:200]))
+            break
+        after = snapshot(bimg)
+        count["history-steps"] = count.get("history-steps", 0) + 1
+        if eff is None:
+            why = "negative" if req < 0 else "behind-last-segment"
+            if refused is None:
+                viol.append(("C14.init-offset-beyond-last", f"setter-accepted:{why}", f"step {step} {op}: accepted, init_offset={after['init_offset']}"))
+                break
+            count["history-refused-steps"] = count.get("history-refused-steps", 0) + 1
+            diff = [k for k in state if state[k] != after[k]]
+            if diff:
+                a, b2 = state[diff[0]], after[diff[0]]
+                txt = (f"{len(a)} -> {len(b2)} bytes" if isinstance(a, bytes) and isinstance(b2, bytes) else f"{a!r} -> {b2!r}")
+                viol.append((C, f"refused-request-changes-object:{why}:{diff[0]}",
+                             f"step {step} {op} raised {type(refused).__name__}; afterwards {diff} differ from before the request: {txt}"[:300]))
+                break
+            continue
+        if refused is not None:
+            if legal:
+                viol.append((C, "legal-request-refused", f"step {step} {op}: {refused}"[:200]))
+            break
+        move = "lowered" if eff < cur else ("raised" if eff > cur else "same")
+        cur = eff
+        state = after
+        # one defect, one record: the first thing that is wrong after this move, then the history ends
+        found = None
+        placed = lay.place(supplied, eff)
+        image = after["export"]
+        if after["init_offset"] != eff:
+            found = (f"{move}:init_offset-value", f"init_offset is {after['init_offset']}, expected {eff:#x}")
+        elif not isinstance(image, bytes):
+            found = (f"{move}:export-{image}", "")
+        elif not BL.Layout.overlaps(placed):
+            probs = lay.check_image(image, placed)
+            offs = dict(after["segment-offsets"]) if isinstance(after["segment-offsets"], list) else None
+            want = {q.name: q.start for q in placed}
+            if probs:
+                found = (f"{move}:{probs[0][0]}", f"(initial offset {eff:#x}) {probs[0][2]}")
+            elif offs is None or any(offs.get(n) != o for n, o in want.items()):
+                found = (f"{move}:segment-offsets", f"get_segment_offset gives {offs}, expected {want}")
+            elif after["len"] != len(image):
+                found = (f"{move}:len", f"len() = {after['len']}, export has {len(image)} bytes")
+            elif case.get("src") != "parse":
+                try:
+                    if fresh_export(eff) != image:
+                        found = (f"{move}:differs-from-fresh-object", f"export differs from the export of a fresh object loaded with "
+                                 f"init_offset {eff:#x}")
+                except SPSDKError:
+                    pass
+        if found:
+            viol.append((C, found[0], f"step {step} {op}: {found[1]}"[:300]))
+            break
+    tok = core.short_hash([class_key(fam, rev, mem), sorted(case["sup"].items()), start, case.get("src"), case["ops"]])
+    return {"viol": core.dedupe(viol), "count": count, "distinct": [tok]}
 
 
 def _layout_clauses(lay: BL.Layout, image: bytes, placed: list, cutkind: str, prefix: str, viol: list, count: dict,
@@ -951,7 +1083,7 @@ def split_segments(lay: BL.Layout) -> tuple:
 
 
 def enumerate_cases(tier: str, triples: list, reps: dict) -> dict:
-    fam_cases: dict = {"base": [], "cli": [], "content": [], "sub": [], "size": [], "set": [], "round": [], "ycfg": [], "nohdr": []}
+    fam_cases: dict = {"base": [], "cli": [], "content": [], "hist": [], "sub": [], "size": [], "set": [], "round": [], "ycfg": [], "nohdr": []}
     quick = tier == "quick"
     # ---- base: every triple
     for (f, r, m) in triples:
@@ -1084,6 +1216,27 @@ def enumerate_cases(tier: str, triples: list, reps: dict) -> dict:
                             sup[floating[0]] = sec
                         for io in sorted({0, lay.offsets[app]}):
                             fam_cases["ycfg"].append(dict(T, sup=sup, io=io))
+            # histories of initial-offset requests on one live object: from every recognisable start offset down through
+            # every prescribed offset to 0 and up again, refused requests (behind the last segment / negative) in between
+            sup = {n: default_spec(n, f, r, m) for n in lay.order}
+            stat = lay.static_offsets()
+            byname = {lay.offsets[n]: n for n in lay.order if lay.offsets[n] >= 0}
+            big = max(stat) + 1
+            for s0 in [0] + lay.start_offsets():
+                down = [o for o in reversed(stat) if o < s0]
+                if 0 not in down and s0:
+                    down.append(0)
+                up = [o for o in stat if o > 0]
+                ops: list = [["set", big]]
+                for i, o in enumerate(down):
+                    ops.append(["setn", byname[o]] if (i % 2 and o in byname) else ["set", o])
+                    ops.append(["set", big if i % 2 == 0 else -1])
+                for i, o in enumerate(up):
+                    ops.append(["setn", byname[o]] if i % 2 == 0 else ["set", o - 1])  # o - 1: rounded up to o
+                ops += [["set", -1], ["set", big + 0x1000], ["set", s0]]
+                fam_cases["hist"].append(dict(T, sup=sup, io=s0, api="hist", ops=ops))
+            ops = [["set", big]] + [x for o in stat if o for x in (["set", o], ["set", -1 if o % 2048 else big])] + [["set", 0]]
+            fam_cases["hist"].append(dict(T, sup=sup, io=0, api="hist", src="parse", ops=ops))
             # CLI
             sup = {n: default_spec(n, f, r, m) for n in lay.order}
             for io in [0] + lay.start_offsets():
@@ -1260,7 +1413,8 @@ def run(ctx: core.Ctx) -> None:
         "single optional segment, all segments} at initial offset 0 + all segments cut at every recognisable start offset; per "
         "layout-class representative (%d per class; class key = segment map, fill pattern and the database facts of the segment "
         "types): sub = ALL subsets of optional segments x ALL initial offsets {0, every prescribed offset} x every container kind; "
-        "content = per segment type the accepted non-canonical contents (byte-swapped FCB, trailing 0x00/0xFF runs, XMCD with "
+        "hist = per start offset one history of init_offset requests on a live object (down to 0, up again, refused requests in "
+        "between; also on a parsed object); content = per segment type the accepted non-canonical contents (byte-swapped FCB, trailing 0x00/0xFF runs, XMCD with "
         "all bits seeded) at offset 0 and a later start offset; set = the same through the init_offset setter / set_init_offset(segment); round = requested offsets one byte below/above "
         "every prescribed offset; size = one segment departing to {1, fixed-1, fixed+1, gap-1, gap, gap+1} "
         "(slot segments), every XMCD variant, image-version values, container size classes x floating successor; ycfg = container "
